@@ -14,11 +14,15 @@ pub mod c11;
 pub mod c12;
 pub mod c13;
 pub mod c14;
+pub mod c15;
+pub mod c16;
+pub mod c17;
+pub mod c18;
 pub mod c19;
 pub mod c20;
 
 pub fn engines() -> Vec<&'static Engine> {
-    vec![&c01::ENGINE, &c02::ENGINE, &c03::ENGINE, &c04::ENGINE, &c05::ENGINE, &c06::ENGINE, &c07::ENGINE, &c08::ENGINE, &c09::ENGINE, &c10::ENGINE, &c11::ENGINE, &c12::ENGINE, &c13::ENGINE, &c14::ENGINE, &c19::ENGINE, &c20::ENGINE]
+    vec![&c01::ENGINE, &c02::ENGINE, &c03::ENGINE, &c04::ENGINE, &c05::ENGINE, &c06::ENGINE, &c07::ENGINE, &c08::ENGINE, &c09::ENGINE, &c10::ENGINE, &c11::ENGINE, &c12::ENGINE, &c13::ENGINE, &c14::ENGINE, &c15::ENGINE, &c16::ENGINE, &c17::ENGINE, &c18::ENGINE, &c19::ENGINE, &c20::ENGINE]
 }
 
 pub fn engine(id: &str) -> Option<&'static Engine> {
